@@ -196,6 +196,18 @@ def run(prog, rep):
             rep.ob("C10.3", fn, site + ":nonblocking", not bad,
                    "non-blocking socket: %s reporting would-block/in-progress leads to an error return without waiting or retrying" % name if not bad else
                    "non-blocking socket: after %s reports would-block a path %s" % (name, "re-issues the call (busy loop)" if res["retried"] else "waits in " + WAIT), c)
+    # blocking mode: a would-block result goes back to the wait ("waits until it can proceed / until T elapsed"),
+    # it is never reported as WOULD_BLOCK before the timeout
+    for (fn, b, i, c, site) in io_sites(u):
+        name = c.get("callee")
+        if name in IO_NATIVES:
+            res = run_scenario(fn, b, i, c, -1, EAGAIN, extra_facts=[("socket->blocking", "!=", 0)], watch=[WAIT])
+            okb = not res["escapes"] and res["retried"] > 0 and WAIT in res["reached"]
+            e = res["escapes"][0] if res["escapes"] else None
+            rep.ob("C10.3", fn, site + ":blocking", okb,
+                   "blocking socket: %s reporting would-block leads back to the condition wait (which enforces the timeout) and the call" % name if okb else
+                   "blocking socket: after %s reports would-block a path %s without waiting: the call fails at once with a would-block error instead of waiting for the timeout"
+                   % (name, ("%s at line %d" % (e[0], e[1])) if e else "does not re-issue the call"), c, e[2] if e else None)
     # every WAIT call inside an I/O operation is guarded by socket->blocking
     for fn in u.functions.values():
         if fn.name == WAIT:
@@ -218,7 +230,7 @@ def run(prog, rep):
                "every condition wait is reached only with socket->blocking true" if not unguarded else
                "line %d: the condition wait is reached without socket->blocking being tested true (a non-blocking socket would block)" % unguarded[0],
                unguarded[0] if unguarded else fn.loc[0])
-    rep.floor("C10.3", 11)
+    rep.floor("C10.3", 16)
 
     # ---- C10.4 timeout plumbing ----------------------------------------------
     w = u.fn(WAIT)
@@ -308,7 +320,10 @@ def run(prog, rep):
     if not {0, 1, "err0"} <= seen:
         okm, mmsg = False, mmsg or "result mapping incomplete: cases seen %s" % sorted(map(str, seen))
     rep.ob("C10.4", w, "timeout:result", okm, "poll 1 -> TRUE, 0 -> FALSE with P_ERROR_IO_TIMED_OUT, failure -> FALSE" if okm else mmsg, pc)
-    rep.floor("C10.4", 2)
+    # an interrupted poll is re-entered with the full timeout: it never turns into "timed out" before T elapsed
+    from plint.retry import check_retry
+    check_retry(rep, "C10.4", w, pb, pi, pc, "timeout:eintr")
+    rep.floor("C10.4", 3)
 
     # ---- C10.5 getters / setters ---------------------------------------------
     pairs = [("p_socket_get_keepalive", "p_socket_set_keepalive", "keepalive"),
